@@ -9,6 +9,7 @@
 #include "dict.h"
 #include "obj.h"
 
+extern int G_MUX_I, G_MUX0_I;
 extern uint8_t G_N;                         /* which server (universally quantified) */
 #define SRV        (V_NODE.Sdo[G_N])
 #define SBUF_LO    ((size_t)G_N * CO_SDO_BUF_BYTE)
@@ -25,26 +26,33 @@ extern uint8_t G_N;                         /* which server (universally quantif
     CUR_OFF(V_NODE.Sdo[n]) >= (size_t)(n) * CO_SDO_BUF_BYTE && CUR_OFF(V_NODE.Sdo[n]) <= (size_t)(n) * CO_SDO_BUF_BYTE + CO_SDO_BUF_BYTE && \
     (V_NODE.Sdo[n].Frm == NULL || V_NODE.Sdo[n].Frm == &V_FRM) && \
     (V_NODE.Sdo[n].Obj == NULL || OBJ_IN_DICT(V_NODE.Sdo[n].Obj)) && \
-    (unsigned)V_NODE.Sdo[n].Blk.State <= BLK_DNWAIT)
+    (unsigned)V_NODE.Sdo[n].Blk.State <= BLK_DNWAIT && V_NODE.Sdo[n].Blk.SegNum <= CO_SDO_BUF_SEG)
 /* mode-indexed head-room of the transfer buffer (what keeps every write inside the slice):
- *  - no block transfer: the cursor is at most one segment into the buffer
+ *  - segmented transfer open: the cursor is at most one segment into the buffer; the block size never exceeds 127
  *  - block download: Cur == Start + 7*SegCnt, fewer than 127 segments buffered, Num == fill
  *  - waiting for next block / end: nothing is buffered unless the block was the last one
- *  - block upload: counters ordered, at most 127 segments */
+ *  - block upload: at least one and at most blksize (<= 127) segments of the current block were sent */
 #define SEGC(n) (V_NODE.Sdo[n].Blk.SegCnt & 0x7F)
 #define FILL(n) (CUR_OFF(V_NODE.Sdo[n]) - (size_t)(n) * CO_SDO_BUF_BYTE)
 #define WF_SDO_MODE(n) ( \
-    (V_NODE.Sdo[n].Blk.State == BLK_IDLE ==> FILL(n) <= 7) && \
+    V_NODE.Sdo[n].Blk.State != BLK_REPEAT && /* transient inside the acknowledge step only */ \
+    ((V_NODE.Sdo[n].Blk.State == BLK_IDLE && V_NODE.Sdo[n].Obj != NULL) ==> (FILL(n) <= 7 && V_NODE.Sdo[n].Buf.Num <= 7)) && \
     (V_NODE.Sdo[n].Blk.State == BLK_DOWNLOAD ==> (V_NODE.Sdo[n].Obj != NULL && SEGC(n) < CO_SDO_BUF_SEG && FILL(n) == 7u * SEGC(n) && V_NODE.Sdo[n].Buf.Num == FILL(n))) && \
     (V_NODE.Sdo[n].Blk.State == BLK_DNWAIT ==> (V_NODE.Sdo[n].Obj != NULL && V_NODE.Sdo[n].Blk.SegCnt == 0 && V_NODE.Sdo[n].Buf.Num == FILL(n))) && \
     ((V_NODE.Sdo[n].Blk.State == BLK_UPLOAD || V_NODE.Sdo[n].Blk.State == BLK_REPEAT) ==> \
-        (V_NODE.Sdo[n].Obj != NULL && V_NODE.Sdo[n].Blk.SegNum >= 1 && V_NODE.Sdo[n].Blk.SegNum <= CO_SDO_BUF_SEG && \
-         V_NODE.Sdo[n].Blk.SegCnt >= 1 && V_NODE.Sdo[n].Blk.SegCnt <= V_NODE.Sdo[n].Blk.SegNum && V_NODE.Sdo[n].Blk.SegOk <= V_NODE.Sdo[n].Blk.SegCnt)))
+        (V_NODE.Sdo[n].Obj != NULL && V_NODE.Sdo[n].Blk.SegCnt >= 1 && \
+         V_NODE.Sdo[n].Blk.SegNum >= 1 && V_NODE.Sdo[n].Blk.SegCnt <= V_NODE.Sdo[n].Blk.SegNum && \
+         (V_NODE.Sdo[n].Blk.Len == 0 ==> V_NODE.Sdo[n].Blk.LastValid <= 7))))
 #define WF_SDO(n) (WF_SDO_SHAPE(n) && WF_SDO_MODE(n))
 #if CO_SSDO_N == 1
 #define WF_SDO_ALL() (WF_SDO(0))
+#define WF_SDO_INIT() (WF_SDO_SHAPE(0))
+#define WF_SDO_INIT_ANY() (WF_SDO_SHAPE(0))
 #else
 #define WF_SDO_ALL() (WF_SDO(0) && WF_SDO(1))
+/* between latching the object and the initiate step proper only the shape of server G_N is known */
+#define WF_SDO_INIT() (WF_SDO_SHAPE(G_N) && WF_SDO(1 - G_N))
+#define WF_SDO_INIT_ANY() WF_SDO_INIT()
 #endif
 /* idle: no transfer open, nothing buffered, toggle/counters reset - the state in which a
  * fresh transfer behaves like on a fresh node (C05) */
@@ -52,8 +60,12 @@ extern uint8_t G_N;                         /* which server (universally quantif
                      V_NODE.Sdo[n].Seg.TBit == 0 && V_NODE.Sdo[n].Seg.Num == 0 && V_NODE.Sdo[n].Seg.Size == 0)
 
 /* a request is being processed by server G_N */
-#define SDO_REQ(srv) ((srv) == &SRV && G_N < CO_SSDO_N && SRV.Frm == &V_FRM && WF_SDO_ALL() && WF_WORLD_DICT())
-#define WF_WORLD_DICT() (WF_DICT_SHAPE(&V_NODE.Dict) && V_NODE.Dict.Node == &V_NODE)
+#define SDO_REQ(srv) ((srv) == &SRV && !G_EXP_ON && G_N < CO_SSDO_N && SRV.Frm == &V_FRM && WF_SDO_ALL() && WF_WORLD_DICT())
+#define SDO_REQ_INIT(srv) ((srv) == &SRV && !G_EXP_ON && G_N < CO_SSDO_N && SRV.Frm == &V_FRM && WF_SDO_INIT() && WF_WORLD_DICT() && SRV.Blk.State == BLK_IDLE)
+/* G_MUX_I / G_MUX0_I: specification lookup spec_find() of the latched multiplexer (index,sub) and (index,0);
+ * definitional ghosts, computed by the harness from the dictionary before the step (a call inside the
+ * contract would be re-evaluated at every use: measured >300 s) */
+#define WF_WORLD_DICT() (WF_DICT_SHAPE(&V_NODE.Dict) && V_NODE.Dict.Node == &V_NODE && G_MUX_I >= -1 && G_MUX_I < (int)G_DNUM && G_MUX0_I >= -1 && G_MUX0_I < (int)G_DNUM)
 /* every other server is untouched (independence of servers, C02) */
 #if CO_SSDO_N == 1
 #define OTHER_SRV_UNCHANGED() 1
@@ -68,6 +80,7 @@ extern uint8_t G_N;                         /* which server (universally quantif
 #define FD(i)  (V_FRM.Data[i])
 #define OFD(i) (__CPROVER_old(V_FRM.Data[i]))
 #define FLONG(i) ((uint32_t)FD(i) | ((uint32_t)FD((i) + 1) << 8) | ((uint32_t)FD((i) + 2) << 16) | ((uint32_t)FD((i) + 3) << 24))
+#define FRM_DATA_UNCHANGED() (FD(0) == OFD(0) && FD(1) == OFD(1) && FD(2) == OFD(2) && FD(3) == OFD(3) && FD(4) == OFD(4) && FD(5) == OFD(5) && FD(6) == OFD(6) && FD(7) == OFD(7))
 #define IS_ABORT_FRAME(code) (FD(0) == 0x80 && FLONG(4) == (uint32_t)(code))
 /* an abort response names the multiplexer the server has latched */
 #define ABORT_MUX_OK() (FD(1) == (uint8_t)__CPROVER_old(SRV.Idx) && FD(2) == (uint8_t)(__CPROVER_old(SRV.Idx) >> 8) && FD(3) == __CPROVER_old(SRV.Sub))
@@ -94,23 +107,24 @@ __CPROVER_assigns(SRV.Obj, SRV.Idx, SRV.Sub, SRV.Buf.Cur, SRV.Buf.Num, SRV.Blk.S
 #define MUXKEY()  (CO_DEV(__CPROVER_old(SRV.Idx), __CPROVER_old(SRV.Sub)))
 #define MUXKEY0() (CO_DEV(__CPROVER_old(SRV.Idx), 0))
 #define ACC_OK(i, mode) ((mode) == CO_SDO_RD ? CO_IS_READ(G_DROOT[i].Key) != 0 : CO_IS_WRITE(G_DROOT[i].Key) != 0)
-#define GETOBJ_OK(mode) (spec_find(MUXKEY()) >= 0 && ACC_OK(spec_find(MUXKEY()), mode))
+#define GETOBJ_OK(mode) (G_MUX_I >= 0 && ACC_OK(G_MUX_I, mode))
 #define GETOBJ_CODE(mode) ( \
-    spec_find(MUXKEY()) >= 0 ? ((mode) == CO_SDO_RD ? CO_SDO_ERR_RD : CO_SDO_ERR_WR) : \
-    (__CPROVER_old(SRV.Sub) != 0 && spec_find(MUXKEY0()) >= 0) ? CO_SDO_ERR_SUB : CO_SDO_ERR_OBJ)
+    G_MUX_I >= 0 ? ((mode) == CO_SDO_RD ? CO_SDO_ERR_RD : CO_SDO_ERR_WR) : \
+    (__CPROVER_old(SRV.Sub) != 0 && G_MUX0_I >= 0) ? CO_SDO_ERR_SUB : CO_SDO_ERR_OBJ)
 CO_ERR COSdoGetObject(CO_SDO *srv, uint16_t mode)
-__CPROVER_requires(SDO_REQ(srv) && (mode == CO_SDO_RD || mode == CO_SDO_WR) && SRV.Blk.State == BLK_IDLE)
+__CPROVER_requires(SDO_REQ_INIT(srv) && (mode == CO_SDO_RD || mode == CO_SDO_WR))
 /* accepted exactly when an entry with the requested index/sub exists and grants the access */
 __CPROVER_ensures(__CPROVER_return_value == (GETOBJ_OK(mode) ? CO_ERR_NONE : CO_ERR_SDO_ABORT))
 /* success: that entry is latched, the request frame is untouched */
-__CPROVER_ensures(__CPROVER_return_value == CO_ERR_NONE ==> (SRV.Obj == &G_DROOT[spec_find(MUXKEY())] && V_FRM.Data[0] == OFD(0)))
+__CPROVER_ensures(__CPROVER_return_value == CO_ERR_NONE ==> (SRV.Obj == &G_DROOT[G_MUX_I] && FRM_DATA_UNCHANGED()))
 /* refusal: abort frame for the requested multiplexer with the CiA 301 code, no object latched */
 __CPROVER_ensures(__CPROVER_return_value == CO_ERR_SDO_ABORT ==> (SRV.Obj == NULL && IS_ABORT_FRAME(GETOBJ_CODE(mode)) && ABORT_MUX_OK()))
-__CPROVER_ensures(WF_SDO_ALL() && OTHER_SRV_UNCHANGED())
+__CPROVER_ensures(WF_SDO_INIT() && OTHER_SRV_UNCHANGED())
 __CPROVER_assigns(V_FRM.Data, SRV.Obj);
 
 /* exact verdict of the length negotiation against the size the object reports (G_OBJSIZE) */
-#define EFFSIZE() ((__CPROVER_old(SRV.Obj->Type) == NULL) ? 0u : G_OBJSIZE)   /* an entry without type has no size */
+#define EFFSIZE() (G_OBJSIZE)   /* the size the latched object reports (0 for an entry without type): result-binding ghost of obj.h */
+#define EFFSIZE_AT(i) (G_OBJSIZE)
 #define GETSIZE_SPEC(width, strict) ( \
     EFFSIZE() == 0 ? 0u : (width) == 0 ? EFFSIZE() : EFFSIZE() == (width) ? (width) : \
     (width) < EFFSIZE() ? ((strict) ? 0u : (width)) : 0u)
@@ -119,12 +133,311 @@ __CPROVER_assigns(V_FRM.Data, SRV.Obj);
 
 /* COSdoGetSize: length negotiation; 0 = refused with 0607 0012h / 0607 0013h / 0800 0020h */
 uint32_t COSdoGetSize(CO_SDO *srv, uint32_t width, bool strict)
-__CPROVER_requires(SDO_REQ(srv) && SRV.Obj != NULL && SRV.Blk.State == BLK_IDLE)
-__CPROVER_ensures(__CPROVER_return_value != 0 ==> (SRV.Obj == __CPROVER_old(SRV.Obj) && FD(0) == OFD(0) && FD(4) == OFD(4) && FD(5) == OFD(5) && FD(6) == OFD(6) && FD(7) == OFD(7) &&
+__CPROVER_requires(SDO_REQ_INIT(srv) && SRV.Obj != NULL)
+__CPROVER_ensures(__CPROVER_return_value != 0 ==> (SRV.Obj == __CPROVER_old(SRV.Obj) && FRM_DATA_UNCHANGED() &&
     (width != 0 ==> __CPROVER_return_value == width)))
 __CPROVER_ensures(__CPROVER_return_value == 0 ==> (SRV.Obj == NULL && FD(0) == 0x80 && ABORT_MUX_OK() &&
     (FLONG(4) == CO_SDO_ERR_TOS || FLONG(4) == CO_SDO_ERR_LEN_HIGH || (strict && FLONG(4) == CO_SDO_ERR_LEN_SMALL))))
 __CPROVER_ensures(__CPROVER_return_value == GETSIZE_SPEC(width, strict))
 __CPROVER_ensures(__CPROVER_return_value == 0 ==> FLONG(4) == GETSIZE_CODE(width, strict))
-__CPROVER_ensures(WF_SDO_ALL() && OTHER_SRV_UNCHANGED())
+__CPROVER_ensures(WF_SDO_INIT() && OTHER_SRV_UNCHANGED())
 __CPROVER_assigns(V_FRM.Data, SRV.Obj);
+
+/* ======================= transfer steps =======================
+ * Common shape: requires the request context SDO_REQ and the protocol state the dispatcher
+ * guarantees; ensures the representation invariant, the result class, the response, and that
+ * every other server is untouched.  G_WR_ERR / G_RD_ERR / G_OBJSIZE: result-binding ghosts (obj.h). */
+#define OBJ_REQ_CMD()     (V_FRM.Data[0])
+/* at most one access of the object (exactly one when the entry's type provides the function: obj.h TYPE_CLAUSE) */
+#define AT_MOST_ONE(cnt)  ((cnt) == __CPROVER_old(cnt) || (cnt) == __CPROVER_old(cnt) + 1)
+#define SDO_IDLE_BUF() (SRV.Obj == NULL && SRV.Blk.State == BLK_IDLE && SCUR == 0 && SRV.Buf.Num == 0)
+#define RES_IS(a, b)      (__CPROVER_return_value == (a) || __CPROVER_return_value == (b))
+#define MUX_ECHO()        (FD(1) == OFD(1) && FD(2) == OFD(2) && FD(3) == OFD(3))
+#define DATA4_ZERO()      (FD(4) == 0 && FD(5) == 0 && FD(6) == 0 && FD(7) == 0)
+#define ABORTED()         (FD(0) == 0x80 && SRV.Obj == NULL)
+#define OBJ_TYPED()       (__CPROVER_old(SRV.Obj->Type) != NULL)
+/* abort code for a value the object's type rejects (C04) */
+#define WR_ABORT_CODE(abortfield) ((abortfield) > 0 ? (abortfield) : \
+    G_WR_ERR == CO_ERR_OBJ_RANGE ? CO_SDO_ERR_RANGE : G_WR_ERR == CO_ERR_OBJ_MAP_TYPE ? CO_SDO_ERR_OBJ_MAP : \
+    G_WR_ERR == CO_ERR_OBJ_MAP_LEN ? CO_SDO_ERR_OBJ_MAP_N : G_WR_ERR == CO_ERR_OBJ_INCOMPATIBLE ? CO_SDO_ERR_PARA_INCOMP : CO_SDO_ERR_TOS)
+
+/* ---- expedited download: 2x request, 60h response ---- */
+#define DLX_WIDTH() ((OFD(0) & 0x01) ? (4u - ((OFD(0) >> 2) & 0x03)) : 0u)
+CO_ERR COSdoDownloadExpedited(CO_SDO *srv)
+__CPROVER_requires(SDO_REQ_INIT(srv) && SRV.Obj != NULL && (OBJ_REQ_CMD() & 0xF2) == 0x22)
+__CPROVER_ensures(RES_IS(CO_ERR_NONE, CO_ERR_SDO_ABORT))
+/* length negotiation refuses: nothing is written */
+__CPROVER_ensures(GETSIZE_SPEC(DLX_WIDTH(), 1) == 0 ==> (__CPROVER_return_value == CO_ERR_SDO_ABORT && ABORTED() && ABORT_MUX_OK() &&
+                  FLONG(4) == GETSIZE_CODE(DLX_WIDTH(), 1) && G_WRITE_N == __CPROVER_old(G_WRITE_N)))
+/* objects wider than 4 bytes cannot be written expedited: refused with an abort frame, nothing written */
+__CPROVER_ensures(GETSIZE_SPEC(DLX_WIDTH(), 1) > 4 ==> (__CPROVER_return_value == CO_ERR_SDO_ABORT && ABORTED() && ABORT_MUX_OK() && G_WRITE_N == __CPROVER_old(G_WRITE_N)))
+/* exactly one typed write of `size` bytes taken from the request; verdict from the type */
+__CPROVER_ensures((GETSIZE_SPEC(DLX_WIDTH(), 1) >= 1 && GETSIZE_SPEC(DLX_WIDTH(), 1) <= 4) ==>
+    (AT_MOST_ONE(G_WRITE_N) &&
+     (G_WR_ERR == CO_ERR_NONE ? (__CPROVER_return_value == CO_ERR_NONE && FD(0) == 0x60 && MUX_ECHO() && DATA4_ZERO() && SRV.Obj == NULL)
+                              : (__CPROVER_return_value == CO_ERR_SDO_ABORT && ABORTED() && ABORT_MUX_OK() && FLONG(4) == WR_ABORT_CODE(SRV.Abort)))))
+__CPROVER_ensures(SRV.Blk.State == BLK_IDLE && (__CPROVER_return_value == CO_ERR_SDO_ABORT ==> (FD(0) == 0x80 && SRV.Obj == NULL)))
+__CPROVER_ensures(WF_SDO_ALL() && OTHER_SRV_UNCHANGED() && G_TX_N == __CPROVER_old(G_TX_N))
+__CPROVER_assigns(SDO_FRAME_COMMON);
+
+/* ---- expedited upload: 40h request, 43h|n response with the value, or segmented initiate 41h ---- */
+CO_ERR COSdoUploadExpedited(CO_SDO *srv)
+__CPROVER_requires(SDO_REQ_INIT(srv) && SRV.Obj != NULL)
+__CPROVER_ensures(RES_IS(CO_ERR_NONE, CO_ERR_SDO_ABORT))
+__CPROVER_ensures(EFFSIZE() == 0 ==> (__CPROVER_return_value == CO_ERR_SDO_ABORT && ABORTED() && ABORT_MUX_OK() && FLONG(4) == CO_SDO_ERR_TOS))
+/* up to 4 bytes: expedited, announced size in the command, object not written */
+__CPROVER_ensures((EFFSIZE() >= 1 && EFFSIZE() <= 4) ==> (AT_MOST_ONE(G_READ_N) && G_WRITE_N == __CPROVER_old(G_WRITE_N)))
+__CPROVER_ensures((EFFSIZE() >= 1 && EFFSIZE() <= 4 && G_RD_ERR == CO_ERR_NONE) ==> __CPROVER_return_value == CO_ERR_NONE)
+__CPROVER_ensures((EFFSIZE() >= 1 && EFFSIZE() <= 4 && G_RD_ERR == CO_ERR_NONE) ==> FD(0) == (0x43 | (((4u - EFFSIZE()) & 3u) << 2)))
+__CPROVER_ensures((EFFSIZE() >= 1 && EFFSIZE() <= 4 && G_RD_ERR == CO_ERR_NONE) ==> (MUX_ECHO() && SRV.Obj == NULL))
+__CPROVER_ensures((EFFSIZE() >= 1 && EFFSIZE() <= 4 && G_RD_ERR != CO_ERR_NONE) ==> (__CPROVER_return_value == CO_ERR_SDO_ABORT && ABORTED() && ABORT_MUX_OK()))
+/* more than 4 bytes: segmented upload initiated, size announced */
+__CPROVER_ensures((EFFSIZE() > 4 && __CPROVER_return_value == CO_ERR_NONE) ==>
+    (FD(0) == 0x41 && MUX_ECHO() && FLONG(4) == EFFSIZE() && SRV.Obj == __CPROVER_old(SRV.Obj) && SRV.Seg.Size == EFFSIZE() && SRV.Seg.Num == 0 && SRV.Seg.TBit == 0 && SCUR == 0))
+__CPROVER_ensures((EFFSIZE() > 4 && __CPROVER_return_value == CO_ERR_SDO_ABORT) ==> (ABORTED() && ABORT_MUX_OK()))
+__CPROVER_ensures(SRV.Blk.State == BLK_IDLE && (__CPROVER_return_value == CO_ERR_SDO_ABORT ==> (FD(0) == 0x80 && SRV.Obj == NULL)))
+__CPROVER_ensures(WF_SDO_ALL() && OTHER_SRV_UNCHANGED() && G_TX_N == __CPROVER_old(G_TX_N) && G_WRITE_N == __CPROVER_old(G_WRITE_N))
+__CPROVER_assigns(SDO_FRAME_COMMON);
+
+CO_ERR COSdoInitUploadSegmented(CO_SDO *srv, uint32_t size)
+__CPROVER_requires(SDO_REQ_INIT(srv) && SRV.Obj != NULL)
+__CPROVER_ensures(RES_IS(CO_ERR_NONE, CO_ERR_SDO_ABORT))
+__CPROVER_ensures(__CPROVER_return_value == CO_ERR_NONE ==>
+    (FD(0) == 0x41 && MUX_ECHO() && FLONG(4) == size && SRV.Obj == __CPROVER_old(SRV.Obj) && SRV.Seg.Size == size && SRV.Seg.Num == 0 && SRV.Seg.TBit == 0 && SCUR == 0))
+__CPROVER_ensures(__CPROVER_return_value == CO_ERR_SDO_ABORT ==> (ABORTED() && ABORT_MUX_OK() && FLONG(4) == CO_SDO_ERR_HW_ACCESS))
+__CPROVER_ensures(SRV.Blk.State == BLK_IDLE && (__CPROVER_return_value == CO_ERR_SDO_ABORT ==> (FD(0) == 0x80 && SRV.Obj == NULL)))
+__CPROVER_ensures(WF_SDO_ALL() && OTHER_SRV_UNCHANGED() && G_TX_N == __CPROVER_old(G_TX_N) && G_WRITE_N == __CPROVER_old(G_WRITE_N))
+__CPROVER_assigns(SDO_FRAME_COMMON);
+
+/* ---- upload segment: 6x request, toggle check, up to 7 bytes, c-bit on the last one ---- */
+#define USEG_W() ((__CPROVER_old(SRV.Seg.Size) - __CPROVER_old(SRV.Seg.Num)) > 7 ? 7u : (__CPROVER_old(SRV.Seg.Size) - __CPROVER_old(SRV.Seg.Num)))
+#define USEG_LAST() ((__CPROVER_old(SRV.Seg.Size) - __CPROVER_old(SRV.Seg.Num)) <= 7)
+CO_ERR COSdoUploadSegmented(CO_SDO *srv)
+__CPROVER_requires(SDO_REQ(srv) && SRV.Blk.State == BLK_IDLE && (OBJ_REQ_CMD() & 0xEF) == 0x60)
+__CPROVER_ensures(RES_IS(CO_ERR_NONE, CO_ERR_SDO_ABORT))
+/* no transfer open: unknown command */
+__CPROVER_ensures(__CPROVER_old(SRV.Obj) == NULL ==> (__CPROVER_return_value == CO_ERR_SDO_ABORT && IS_ABORT_FRAME(CO_SDO_ERR_CMD)))
+/* toggle error */
+__CPROVER_ensures((__CPROVER_old(SRV.Obj) != NULL && ((OFD(0) >> 4) & 1) != __CPROVER_old(SRV.Seg.TBit)) ==>
+    (__CPROVER_return_value == CO_ERR_SDO_ABORT && ABORTED() && IS_ABORT_FRAME(CO_SDO_ERR_TBIT) && G_READ_N == __CPROVER_old(G_READ_N)))
+/* a good segment: toggle echoed, n = 7 - width, c iff last; position advances; transfer closed on the last one */
+__CPROVER_ensures(__CPROVER_return_value == CO_ERR_NONE ==>
+    (FD(0) == (uint8_t)((__CPROVER_old(SRV.Seg.TBit) << 4) | (((7u - USEG_W()) << 1) & 0x0E) | (USEG_LAST() ? 1 : 0)) &&
+     AT_MOST_ONE(G_READ_N) &&
+     (USEG_LAST() ? (SRV.Obj == NULL && SRV.Seg.Num == 0 && SRV.Seg.Size == 0 && SRV.Seg.TBit == 0)
+                  : (SRV.Obj == __CPROVER_old(SRV.Obj) && SRV.Seg.Num == __CPROVER_old(SRV.Seg.Num) + 7 && SRV.Seg.TBit == (__CPROVER_old(SRV.Seg.TBit) ^ 1)))))
+__CPROVER_ensures(SRV.Blk.State == BLK_IDLE && (__CPROVER_return_value == CO_ERR_SDO_ABORT ==> (FD(0) == 0x80 && SRV.Obj == NULL)))
+__CPROVER_ensures(WF_SDO_ALL() && OTHER_SRV_UNCHANGED() && G_TX_N == __CPROVER_old(G_TX_N) && G_WRITE_N == __CPROVER_old(G_WRITE_N))
+__CPROVER_assigns(SDO_FRAME_COMMON);
+
+/* ---- initiate segmented download: 2x (e=0) request, 60h response ---- */
+#define DLS_WIDTH() ((OFD(0) & 0x01) ? ((uint32_t)OFD(4) | ((uint32_t)OFD(5) << 8) | ((uint32_t)OFD(6) << 16) | ((uint32_t)OFD(7) << 24)) : 0u)
+CO_ERR COSdoInitDownloadSegmented(CO_SDO *srv)
+__CPROVER_requires(SDO_REQ_INIT(srv) && SRV.Obj != NULL)
+__CPROVER_ensures(RES_IS(CO_ERR_NONE, CO_ERR_SDO_ABORT))
+__CPROVER_ensures(GETSIZE_SPEC(DLS_WIDTH(), 1) == 0 ==> (__CPROVER_return_value == CO_ERR_SDO_ABORT && ABORTED() && ABORT_MUX_OK() &&
+                  FLONG(4) == GETSIZE_CODE(DLS_WIDTH(), 1) && G_WRITE_N == __CPROVER_old(G_WRITE_N)))
+__CPROVER_ensures(__CPROVER_return_value == CO_ERR_NONE ==>
+    (FD(0) == 0x60 && MUX_ECHO() && DATA4_ZERO() && SRV.Obj == __CPROVER_old(SRV.Obj) && SRV.Seg.Size == GETSIZE_SPEC(DLS_WIDTH(), 1) &&
+     SRV.Seg.Num == 0 && SRV.Seg.TBit == 0 && SCUR == 0 && SRV.Buf.Num == 0))
+__CPROVER_ensures((GETSIZE_SPEC(DLS_WIDTH(), 1) != 0 && __CPROVER_return_value == CO_ERR_SDO_ABORT) ==> (ABORTED() && ABORT_MUX_OK() && FLONG(4) == CO_SDO_ERR_HW_ACCESS))
+__CPROVER_ensures(SRV.Blk.State == BLK_IDLE && (__CPROVER_return_value == CO_ERR_SDO_ABORT ==> (FD(0) == 0x80 && SRV.Obj == NULL)))
+__CPROVER_ensures(WF_SDO_ALL() && OTHER_SRV_UNCHANGED() && G_TX_N == __CPROVER_old(G_TX_N))
+__CPROVER_assigns(SDO_FRAME_COMMON);
+
+/* ---- download segment: 0x request (ccs 0), toggle check, 2x|t response ---- */
+CO_ERR COSdoDownloadSegmented(CO_SDO *srv)
+__CPROVER_requires(SDO_REQ(srv) && SRV.Blk.State == BLK_IDLE && (OBJ_REQ_CMD() & 0xE0) == 0x00)
+__CPROVER_ensures(RES_IS(CO_ERR_NONE, CO_ERR_SDO_ABORT))
+/* no transfer open: unknown command, nothing written */
+__CPROVER_ensures(__CPROVER_old(SRV.Obj) == NULL ==> (__CPROVER_return_value == CO_ERR_SDO_ABORT && IS_ABORT_FRAME(CO_SDO_ERR_CMD) && G_WRITE_N == __CPROVER_old(G_WRITE_N)))
+/* toggle error */
+__CPROVER_ensures((__CPROVER_old(SRV.Obj) != NULL && ((OFD(0) >> 4) & 1) != __CPROVER_old(SRV.Seg.TBit)) ==>
+    (__CPROVER_return_value == CO_ERR_SDO_ABORT && ABORTED() && IS_ABORT_FRAME(CO_SDO_ERR_TBIT) && G_WRITE_N == __CPROVER_old(G_WRITE_N)))
+/* accepted segment: response 20h|t<<4, rest zero; the buffer is flushed (cursor back at the start) */
+__CPROVER_ensures(__CPROVER_return_value == CO_ERR_NONE ==>
+    (FD(0) == (uint8_t)(0x20 | (__CPROVER_old(SRV.Seg.TBit) << 4)) && FD(1) == 0 && FD(2) == 0 && FD(3) == 0 && DATA4_ZERO() &&
+     SRV.Seg.TBit == (__CPROVER_old(SRV.Seg.TBit) ^ 1) && SCUR == 0 && SRV.Buf.Num == 0 &&
+     ((OFD(0) & 1) ? SRV.Obj == NULL : SRV.Obj == __CPROVER_old(SRV.Obj))))
+__CPROVER_ensures(__CPROVER_return_value == CO_ERR_SDO_ABORT ==> ABORTED())
+__CPROVER_ensures(SRV.Blk.State == BLK_IDLE && (__CPROVER_return_value == CO_ERR_SDO_ABORT ==> (FD(0) == 0x80 && SRV.Obj == NULL)))
+__CPROVER_ensures(WF_SDO_ALL() && OTHER_SRV_UNCHANGED() && G_TX_N == __CPROVER_old(G_TX_N))
+__CPROVER_assigns(SDO_FRAME_COMMON);
+
+/* ======================= block download ======================= */
+#define DLB_WIDTH() ((OFD(0) & 0x02) ? ((uint32_t)OFD(4) | ((uint32_t)OFD(5) << 8) | ((uint32_t)OFD(6) << 16) | ((uint32_t)OFD(7) << 24)) : 0u)
+CO_ERR COSdoInitDownloadBlock(CO_SDO *srv)
+__CPROVER_requires(SDO_REQ_INIT(srv) && SRV.Obj != NULL)
+/* always answered: block download response A0h with block size 127, or an abort */
+__CPROVER_ensures(RES_IS(CO_ERR_NONE, CO_ERR_SDO_ABORT))
+__CPROVER_ensures(GETSIZE_SPEC(DLB_WIDTH(), 0) == 0 ==> (__CPROVER_return_value == CO_ERR_SDO_ABORT && ABORTED() && ABORT_MUX_OK() &&
+                  FLONG(4) == GETSIZE_CODE(DLB_WIDTH(), 0) && G_WRITE_N == __CPROVER_old(G_WRITE_N) && SRV.Blk.State == BLK_IDLE))
+__CPROVER_ensures(__CPROVER_return_value == CO_ERR_NONE ==>
+    (FD(0) == 0xA0 && MUX_ECHO() && FD(4) == CO_SDO_BUF_SEG && FD(5) == 0 && FD(6) == 0 && FD(7) == 0 && SRV.Obj == __CPROVER_old(SRV.Obj) &&
+     SRV.Blk.State == BLK_DOWNLOAD && SRV.Blk.SegCnt == 0 && SRV.Blk.Len == GETSIZE_SPEC(DLB_WIDTH(), 0) && SCUR == 0 && SRV.Buf.Num == 0))
+__CPROVER_ensures(__CPROVER_return_value == CO_ERR_SDO_ABORT ==> (ABORTED() && ABORT_MUX_OK() && SRV.Blk.State == BLK_IDLE))
+__CPROVER_ensures(WF_SDO_ALL() && OTHER_SRV_UNCHANGED() && G_TX_N == __CPROVER_old(G_TX_N))
+__CPROVER_assigns(SDO_FRAME_COMMON);
+
+/* one segment of a block: silent inside the block; A2h ackseq 127 at the end of a block */
+#define DB_SEQ()  (OFD(0) & 0x7F)
+#define DB_LAST() ((OFD(0) & 0x80) != 0)
+#define DB_INSEQ() (DB_SEQ() == (uint8_t)(__CPROVER_old(SRV.Blk.SegCnt) + 1))
+CO_ERR COSdoDownloadBlock(CO_SDO *srv)
+__CPROVER_requires(SDO_REQ(srv) && SRV.Blk.State == BLK_DOWNLOAD)
+__CPROVER_ensures(RES_IS(CO_ERR_NONE, CO_ERR_SDO_ABORT) || __CPROVER_return_value == CO_ERR_SDO_SILENT)
+/* in sequence, not the end of the block: buffered, no response */
+__CPROVER_ensures((DB_INSEQ() && __CPROVER_old(SRV.Blk.Len) > 0 && !DB_LAST() && DB_SEQ() != CO_SDO_BUF_SEG) ==>
+    (__CPROVER_return_value == CO_ERR_SDO_SILENT && SRV.Blk.State == BLK_DOWNLOAD && SRV.Blk.SegCnt == DB_SEQ() && G_WRITE_N == __CPROVER_old(G_WRITE_N)))
+/* in sequence, end of block (127th or last segment): acknowledge it, wait for next block or end */
+__CPROVER_ensures((DB_INSEQ() && __CPROVER_old(SRV.Blk.Len) > 0 && (DB_LAST() || DB_SEQ() == CO_SDO_BUF_SEG)) ==>
+    (__CPROVER_return_value == CO_ERR_NONE && FD(0) == 0xA2 && FD(1) == DB_SEQ() && FD(2) == CO_SDO_BUF_SEG && FD(3) == 0 && DATA4_ZERO() &&
+     SRV.Blk.State == BLK_DNWAIT && SRV.Blk.SegCnt == 0))
+/* more data than announced: 0607 0012h */
+__CPROVER_ensures((DB_INSEQ() && __CPROVER_old(SRV.Blk.Len) == 0) ==> (__CPROVER_return_value == CO_ERR_SDO_ABORT && IS_ABORT_FRAME(CO_SDO_ERR_LEN_HIGH) && SDO_IDLE_BUF()))
+/* out of sequence: nothing is buffered; at the end of the block the last good segment is acknowledged */
+__CPROVER_ensures((!DB_INSEQ() && !DB_LAST() && DB_SEQ() != CO_SDO_BUF_SEG) ==> (__CPROVER_return_value == CO_ERR_SDO_SILENT && SRV.Blk.State == BLK_DOWNLOAD))
+__CPROVER_ensures((!DB_INSEQ() && (DB_LAST() || DB_SEQ() == CO_SDO_BUF_SEG)) ==>
+    (__CPROVER_return_value == CO_ERR_NONE && FD(0) == 0xA2 && FD(1) == (__CPROVER_old(SRV.Blk.SegCnt) & 0x7F) && FD(2) == CO_SDO_BUF_SEG))
+__CPROVER_ensures(__CPROVER_return_value == CO_ERR_SDO_SILENT ==> FRM_DATA_UNCHANGED())
+__CPROVER_ensures(WF_SDO_ALL() && OTHER_SRV_UNCHANGED() && G_TX_N == __CPROVER_old(G_TX_N))
+__CPROVER_assigns(SDO_FRAME_COMMON);
+
+CO_ERR COSdoEndDownloadBlock(CO_SDO *srv)
+__CPROVER_requires(SDO_REQ(srv) && SRV.Blk.State == BLK_DNWAIT && (OBJ_REQ_CMD() & 0xE3) == 0xC1)
+__CPROVER_ensures(RES_IS(CO_ERR_NONE, CO_ERR_SDO_ABORT))
+/* confirmed: A1h, transfer closed */
+__CPROVER_ensures(__CPROVER_return_value == CO_ERR_NONE ==> (FD(0) == 0xA1 && FD(1) == 0 && FD(2) == 0 && FD(3) == 0 && DATA4_ZERO() && SDO_IDLE_BUF()))
+__CPROVER_ensures(__CPROVER_return_value == CO_ERR_SDO_ABORT ==> (FD(0) == 0x80 && SRV.Obj == NULL && SRV.Blk.State == BLK_IDLE))
+__CPROVER_ensures(AT_MOST_ONE(G_WRITE_N))
+__CPROVER_ensures(WF_SDO_ALL() && OTHER_SRV_UNCHANGED() && G_TX_N == __CPROVER_old(G_TX_N))
+__CPROVER_assigns(SDO_FRAME_COMMON, SRV.Idx, SRV.Sub);
+
+/* ======================= block upload ======================= */
+CO_ERR COSdoInitUploadBlock(CO_SDO *srv)
+__CPROVER_requires(SDO_REQ_INIT(srv) && (OBJ_REQ_CMD() & 0xE3) == 0xA0)
+__CPROVER_ensures(RES_IS(CO_ERR_NONE, CO_ERR_SDO_ABORT))
+__CPROVER_ensures(!GETOBJ_OK(CO_SDO_RD) ==> (__CPROVER_return_value == CO_ERR_SDO_ABORT && ABORTED() && IS_ABORT_FRAME(GETOBJ_CODE(CO_SDO_RD)) && ABORT_MUX_OK()))
+/* C2h with the object size; the block size the client asked for (1..127) is taken over */
+__CPROVER_ensures(__CPROVER_return_value == CO_ERR_NONE ==>
+    (FD(0) == 0xC2 && MUX_ECHO() && FLONG(4) == G_OBJSIZE && G_OBJSIZE != 0 && SRV.Obj == &G_DROOT[G_MUX_I] &&
+     SRV.Blk.SegNum == OFD(4) && OFD(4) >= 1 && OFD(4) <= 127 && SRV.Blk.Size == G_OBJSIZE && SRV.Blk.Len == G_OBJSIZE && SRV.Blk.SegOk == 0))
+__CPROVER_ensures((GETOBJ_OK(CO_SDO_RD) && EFFSIZE_AT(G_MUX_I) != 0 && (OFD(4) < 1 || OFD(4) > 127)) ==> (__CPROVER_return_value == CO_ERR_SDO_ABORT && IS_ABORT_FRAME(CO_SDO_ERR_BLK_SIZE)))
+__CPROVER_ensures(__CPROVER_return_value == CO_ERR_SDO_ABORT ==> ABORTED())
+__CPROVER_ensures(SRV.Blk.State == BLK_IDLE && (__CPROVER_return_value == CO_ERR_SDO_ABORT ==> (FD(0) == 0x80 && SRV.Obj == NULL)))
+__CPROVER_ensures(WF_SDO_ALL() && OTHER_SRV_UNCHANGED() && G_TX_N == __CPROVER_old(G_TX_N) && G_WRITE_N == __CPROVER_old(G_WRITE_N))
+__CPROVER_assigns(SDO_FRAME_COMMON, SRV.Idx, SRV.Sub);
+
+/* start / continue / repeat a block: sends up to SegNum segment frames itself, never more than 127 */
+/* (enforced in EXPLICIT form, harness/sdo_ul_blk.c: loop contracts + byte buffer, see DESIGN 3.5a) */
+#define ULB_PRE(srv) ((srv) == &SRV && !G_EXP_ON && G_N < CO_SSDO_N && SRV.Frm == &V_FRM && WF_SDO_INIT_ANY() && WF_WORLD_DICT() && \
+    (SRV.Blk.State == BLK_IDLE || SRV.Blk.State == BLK_UPLOAD || SRV.Blk.State == BLK_REPEAT) && (SRV.Blk.State != BLK_IDLE ==> (SRV.Obj != NULL && SRV.Blk.SegNum >= 1)) && \
+    (SRV.Blk.State == BLK_REPEAT ==> (SRV.Obj != NULL && SRV.Blk.SegOk < SRV.Blk.SegCnt && SRV.Blk.SegCnt <= SRV.Blk.SegNum)))
+CO_ERR COSdoUploadBlock(CO_SDO *srv)
+__CPROVER_requires(ULB_PRE(srv))
+__CPROVER_ensures(__CPROVER_return_value == CO_ERR_SDO_SILENT || __CPROVER_return_value == CO_ERR_SDO_ABORT)
+__CPROVER_ensures(G_TX_N - __CPROVER_old(G_TX_N) <= CO_SDO_BUF_SEG)
+/* no transfer open: refused with 0504 0001h, nothing transmitted */
+__CPROVER_ensures((__CPROVER_old(SRV.Obj) == NULL || __CPROVER_old(SRV.Blk.SegNum) == 0) ==> (__CPROVER_return_value == CO_ERR_SDO_ABORT && IS_ABORT_FRAME(CO_SDO_ERR_CMD) && SRV.Obj == NULL && G_TX_N == __CPROVER_old(G_TX_N) && SRV.Blk.State == __CPROVER_old(SRV.Blk.State)))
+__CPROVER_ensures((__CPROVER_old(SRV.Obj) != NULL && __CPROVER_old(SRV.Blk.SegNum) != 0) ==> (__CPROVER_return_value == CO_ERR_SDO_SILENT && SRV.Blk.State == BLK_UPLOAD && SRV.Obj == __CPROVER_old(SRV.Obj) &&
+                  G_TX_N - __CPROVER_old(G_TX_N) >= 1 && G_TX_N - __CPROVER_old(G_TX_N) <= SRV.Blk.SegNum))
+__CPROVER_ensures(WF_SDO_ALL() && OTHER_SRV_UNCHANGED() && G_WRITE_N == __CPROVER_old(G_WRITE_N))
+__CPROVER_assigns(SDO_FRAME_COMMON, G_TX_N, G_TX_LAST, G_TX_K);
+
+/* loop contracts of COSdoUploadBlock: (0) move the unacknowledged tail to the front, (6) transmit the block */
+#define VWL_ulb_move \
+ __CPROVER_assigns(txNum, txBuf, srv->Buf.Cur, __CPROVER_object_whole(V_SDOBUF_P)) \
+ __CPROVER_loop_invariant(txNum <= num && num <= CO_SDO_BUF_BYTE && byteOk <= CO_SDO_BUF_BYTE && byteOk + num <= CO_SDO_BUF_BYTE && \
+                          srv->Buf.Cur == srv->Buf.Start + (num - txNum) && txBuf == srv->Buf.Start + byteOk + (num - txNum)) \
+ __CPROVER_decreases(txNum)
+#define VWL_ulb_main \
+ __CPROVER_assigns(seg, size, len, i, finished, srv->Blk.Len, srv->Blk.SegCnt, srv->Blk.LastValid, srv->Buf.Cur, srv->Buf.Num, V_FRM.Data, G_TX_N, G_TX_LAST, G_TX_K, V_NODE.Error) \
+ __CPROVER_loop_invariant(finished <= 1 && srv->Blk.SegCnt >= 1 && srv->Blk.SegCnt <= CO_SDO_BUF_SEG && srv->Blk.SegNum >= 1 && srv->Blk.SegCnt <= srv->Blk.SegNum && (finished == 1 ==> srv->Blk.LastValid <= 7) && (srv->Blk.Len == 0 ==> (finished == 1 || H_TX0 == G_TX_N))) \
+ __CPROVER_loop_invariant(__CPROVER_same_object(srv->Buf.Cur, V_SDOBUF_P) && CUR_OFF(*srv) >= SBUF_LO && CUR_OFF(*srv) - SBUF_LO <= 7u * ((srv->Blk.SegCnt - 1u) + finished)) \
+ __CPROVER_loop_invariant(G_TX_N == H_TX0 + (srv->Blk.SegCnt - 1u) + finished) \
+ __CPROVER_decreases(129 - (int)srv->Blk.SegCnt - (int)finished)
+extern uint32_t H_TX0;
+
+CO_ERR COSdoAckUploadBlock(CO_SDO *srv)
+__CPROVER_requires(SDO_REQ(srv) && SRV.Blk.State == BLK_UPLOAD && (OBJ_REQ_CMD() & 0xE3) == 0xA2)
+__CPROVER_ensures(RES_IS(CO_ERR_NONE, CO_ERR_SDO_ABORT) || __CPROVER_return_value == CO_ERR_SDO_SILENT)
+/* acknowledging more than was sent: 0504 0003h */
+__CPROVER_ensures(OFD(1) > __CPROVER_old(SRV.Blk.SegCnt) ==> (__CPROVER_return_value == CO_ERR_SDO_ABORT && IS_ABORT_FRAME(CO_SDO_ERR_SEQ_NUM) && SDO_IDLE(G_N)))
+/* everything acknowledged and nothing left: end block upload C1h | n<<2 */
+__CPROVER_ensures((OFD(1) == __CPROVER_old(SRV.Blk.SegCnt) && __CPROVER_old(SRV.Blk.Len) == 0 && __CPROVER_old(SRV.Blk.LastValid) <= 7) ==>
+    (__CPROVER_return_value == CO_ERR_NONE && FD(0) == (uint8_t)(0xC1 | ((7u - __CPROVER_old(SRV.Blk.LastValid)) << 2)) && FD(1) == 0 && FD(2) == 0 && FD(3) == 0 && DATA4_ZERO()))
+/* otherwise the next (or the repeated) block is transmitted: at least one segment, no other response */
+__CPROVER_ensures(__CPROVER_return_value == CO_ERR_SDO_SILENT ==> (G_TX_N - __CPROVER_old(G_TX_N) >= 1 && SRV.Blk.State == BLK_UPLOAD))
+__CPROVER_ensures(__CPROVER_return_value == CO_ERR_SDO_ABORT ==> (FD(0) == 0x80 && SDO_IDLE(G_N)))
+__CPROVER_ensures(__CPROVER_return_value == CO_ERR_NONE ==> (G_TX_N == __CPROVER_old(G_TX_N)))
+__CPROVER_ensures(G_TX_N - __CPROVER_old(G_TX_N) <= CO_SDO_BUF_SEG)
+__CPROVER_ensures(WF_SDO_ALL() && OTHER_SRV_UNCHANGED() && G_WRITE_N == __CPROVER_old(G_WRITE_N))
+__CPROVER_assigns(SDO_FRAME_COMMON, SRV.Idx, SRV.Sub, G_TX_N, G_TX_LAST, G_TX_K);
+
+CO_ERR COSdoEndUploadBlock(CO_SDO *srv)
+__CPROVER_requires(SDO_REQ(srv) && SRV.Blk.State == BLK_UPLOAD)
+__CPROVER_ensures(__CPROVER_return_value == CO_ERR_SDO_SILENT && SRV.Obj == NULL && SRV.Blk.State == BLK_IDLE && FRM_DATA_UNCHANGED())
+__CPROVER_ensures(WF_SDO_ALL() && OTHER_SRV_UNCHANGED() && G_TX_N == __CPROVER_old(G_TX_N) && G_WRITE_N == __CPROVER_old(G_WRITE_N))
+__CPROVER_assigns(SRV.Obj, SRV.Blk.State);
+
+/* ======================= request intake and dispatch ======================= */
+#define IS_INITIATE(c) ((((c) & 0xF2) == 0x22) || ((c) == 0x40) || (((c) & 0xF2) == 0x20) || (((c) & 0xF9) == 0xC0) || (((c) & 0xE3) == 0xA0))
+#define REQ_MUX_LATCHED() (SRV.Idx == ((uint16_t)OFD(1) | ((uint16_t)OFD(2) << 8)) && SRV.Sub == OFD(3))
+/* COSdoCheck: which server (if any) a frame addresses; the request is latched into that server */
+CO_SDO *COSdoCheck(CO_SDO *srv, CO_IF_FRM *frm)
+__CPROVER_requires(srv == V_NODE.Sdo && frm == &V_FRM && G_N < CO_SSDO_N && WF_SDO_ALL())
+/* the first server whose request identifier matches claims the frame; nobody else is touched */
+__CPROVER_ensures((__CPROVER_old(V_FRM.Identifier) == __CPROVER_old(SRV.RxId) && (G_N == 0 || __CPROVER_old(V_FRM.Identifier) != __CPROVER_old(V_NODE.Sdo[0].RxId))) ==>
+    (__CPROVER_return_value == &SRV && V_FRM.Identifier == SRV.TxId && SRV.Frm == &V_FRM && SRV.Abort == 0 && FRM_DATA_UNCHANGED() &&
+     /* an initiate request (and any request to an idle server) names the object the server will work on */
+     ((__CPROVER_old(SRV.Obj) == NULL || (SRV.Blk.State == BLK_IDLE && IS_INITIATE(OFD(0)))) ==> REQ_MUX_LATCHED()) &&
+     SRV.Obj == __CPROVER_old(SRV.Obj) && SRV.Blk.State == __CPROVER_old(SRV.Blk.State)))
+__CPROVER_ensures((__CPROVER_old(V_FRM.Identifier) != __CPROVER_old(V_NODE.Sdo[0].RxId) && __CPROVER_old(V_FRM.Identifier) != __CPROVER_old(V_NODE.Sdo[CO_SSDO_N - 1].RxId)) ==>
+    (__CPROVER_return_value == NULL && V_FRM.Identifier == __CPROVER_old(V_FRM.Identifier) && FRM_DATA_UNCHANGED()))
+__CPROVER_ensures(WF_SDO_ALL())
+__CPROVER_assigns(V_FRM.Identifier, V_NODE.Sdo[0].Frm, V_NODE.Sdo[0].Abort, V_NODE.Sdo[0].Idx, V_NODE.Sdo[0].Sub,
+                  V_NODE.Sdo[CO_SSDO_N - 1].Frm, V_NODE.Sdo[CO_SSDO_N - 1].Abort, V_NODE.Sdo[CO_SSDO_N - 1].Idx, V_NODE.Sdo[CO_SSDO_N - 1].Sub);
+
+/* COSdoResponse: one request, one verdict */
+#define OSTATE() (__CPROVER_old(SRV.Blk.State))
+CO_ERR COSdoResponse(CO_SDO *srv)
+__CPROVER_requires(SDO_REQ(srv))
+/* an initiate request is processed for the multiplexer it names (established by COSdoCheck) */
+__CPROVER_requires((SRV.Blk.State == BLK_IDLE && IS_INITIATE(V_FRM.Data[0])) ==> (SRV.Idx == ((uint16_t)V_FRM.Data[1] | ((uint16_t)V_FRM.Data[2] << 8)) && SRV.Sub == V_FRM.Data[3]))
+__CPROVER_ensures(RES_IS(CO_ERR_NONE, CO_ERR_SDO_ABORT) || __CPROVER_return_value == CO_ERR_SDO_SILENT)
+/* client abort: idle afterwards, from every state (C05) */
+__CPROVER_ensures(OFD(0) == 0x80 ==> SDO_IDLE(G_N))
+/* silence only inside a block download, for the end-of-block-upload confirmation, and while the server itself
+ * transmits the segments of an upload block (at least one frame) */
+__CPROVER_ensures((__CPROVER_return_value == CO_ERR_SDO_SILENT) ==>
+    (OSTATE() == BLK_DOWNLOAD || OSTATE() == BLK_DNWAIT || (OSTATE() == BLK_UPLOAD && (OFD(0) == 0xA1 || G_TX_N - __CPROVER_old(G_TX_N) >= 1)) ||
+     (OSTATE() == BLK_IDLE && OFD(0) == 0xA3 && G_TX_N - __CPROVER_old(G_TX_N) >= 1)))
+/* an abort verdict is an abort frame; a positive initiate response repeats the multiplexer of the request */
+__CPROVER_ensures((__CPROVER_return_value == CO_ERR_SDO_ABORT && OFD(0) != 0x80) ==> (FD(0) == 0x80 && SRV.Obj == NULL))
+__CPROVER_ensures((__CPROVER_return_value == CO_ERR_NONE && OSTATE() == BLK_IDLE && IS_INITIATE(OFD(0))) ==> MUX_ECHO())
+/* unknown command specifier: 0504 0001h */
+__CPROVER_ensures((OSTATE() == BLK_IDLE && OFD(0) != 0x80 && !IS_INITIATE(OFD(0)) && (OFD(0) & 0xE0) != 0x00 && (OFD(0) & 0xEF) != 0x60 && OFD(0) != 0xA3) ==>
+    (__CPROVER_return_value == CO_ERR_SDO_ABORT && IS_ABORT_FRAME(CO_SDO_ERR_CMD) && SDO_IDLE(G_N)))
+/* positive responses to initiate requests leave the object latched that the request names (G_MUX_I = spec lookup) */
+__CPROVER_ensures((__CPROVER_return_value == CO_ERR_NONE && OSTATE() == BLK_IDLE && IS_INITIATE(OFD(0)) && SRV.Obj != NULL) ==> SRV.Obj == &G_DROOT[G_MUX_I])
+__CPROVER_ensures(G_TX_N - __CPROVER_old(G_TX_N) <= CO_SDO_BUF_SEG)
+__CPROVER_ensures(WF_SDO_ALL() && OTHER_SRV_UNCHANGED())
+__CPROVER_assigns(SDO_FRAME_COMMON, V_FRM.DLC, SRV.Idx, SRV.Sub, G_TX_N, G_TX_LAST, G_TX_K);
+
+/* COSdoReset / COSdoEnable / COSdoInit: servers idle, enabled per 1200h+n (C05: reset communication) */
+void COSdoReset(CO_SDO *srv, uint8_t num, struct CO_NODE_T *node)
+__CPROVER_requires(srv == V_NODE.Sdo && node == &V_NODE && V_NODE.SdoBuf == V_SDOBUF_P)
+__CPROVER_ensures(num < CO_SSDO_N ==> (WF_SDO(num) && SDO_IDLE(num) && V_NODE.Sdo[num].RxId == CO_SDO_ID_OFF && V_NODE.Sdo[num].TxId == CO_SDO_ID_OFF && V_NODE.Sdo[num].Frm == NULL))
+__CPROVER_assigns(num < CO_SSDO_N: V_NODE.Sdo[num]);
+
+void COSdoEnable(CO_SDO *srv, uint8_t num)
+__CPROVER_requires(srv == V_NODE.Sdo && V_NODE.Sdo[0].Node == &V_NODE)
+/* enabled exactly when both COB-IDs of 1200h+num are readable and valid (bit 31 clear) */
+__CPROVER_ensures(num < CO_SSDO_N ==> ((V_NODE.Sdo[num].RxId == CO_SDO_ID_OFF && V_NODE.Sdo[num].TxId == CO_SDO_ID_OFF) ||
+    ((V_NODE.Sdo[num].RxId & CO_SDO_ID_OFF) == 0 && (V_NODE.Sdo[num].TxId & CO_SDO_ID_OFF) == 0)))
+__CPROVER_assigns(num < CO_SSDO_N: V_NODE.Sdo[num].RxId, V_NODE.Sdo[num].TxId);
+
+void COSdoInit(CO_SDO *srv, struct CO_NODE_T *node)
+__CPROVER_requires(srv == V_NODE.Sdo && node == &V_NODE && V_NODE.SdoBuf == V_SDOBUF_P)
+__CPROVER_ensures(WF_SDO_ALL() && SDO_IDLE(0) && SDO_IDLE(CO_SSDO_N - 1))
+__CPROVER_assigns(V_NODE.Sdo);
